@@ -87,10 +87,10 @@ impl Terminal for RecTerm {
 
 // ------------------------------------------------------------------ alphabet
 
-pub const KIND_NAMES: [&str; 23] = [
+pub const KIND_NAMES: [&str; 25] = [
     "blank", "a", "a/red", "blank/red", "blank/underline", "wide", "wide/red", "img1x1", "img1x2", "img1x1'", "glyph1x2", "img2x1",
     "glyph1x2/underline", "glyphB1x1", "glyph1x2/framed", "U+3000", "U+1680", "tileA", "tileB",
-    "img1x1/red", "blank/reverse-red", "blank/reverse-blue", "img1x3",
+    "img1x1/red", "blank/reverse-red", "blank/reverse-blue", "img1x3", "blank/bold", "blank/italic-on-red",
 ];
 
 
@@ -188,6 +188,9 @@ impl Alphabet {
             Cell::new_char(Face::new(Some(RGBA::new(0, 0, 255, 255)), None, FaceAttrs::REVERSE), ' '),
             // an image three cells wide (an overlap can begin strictly inside its top row)
             Cell::new_image(image(2, 6, 7)),
+            // blanks whose rendition is more than a background: a run of them is not what an erase leaves behind
+            Cell::new_char(Face::new(None, None, FaceAttrs::BOLD), ' '),
+            Cell::new_char(Face::new(None, Some(RGBA::new(255, 0, 0, 255)), FaceAttrs::ITALIC), ' '),
         ];
         Alphabet { cells, ptrs }
     }
@@ -646,6 +649,8 @@ pub fn grids(tier: Tier) -> Vec<(Grid, usize, bool)> {
             (g(1, 4, &seven), 6, false),
             (g(2, 2, &vec![0, 1, 3, 6, 7, 8, 11]), 6, false),
             (g(1, 6, &long), 6, false),
+            // runs of blanks with an attribute (long enough for the run-length erase)
+            (g(1, 6, &vec![0, 20, 23, 24]), 6, false),
             (g(1, 3, &vec![0, 1, 7, 10, 12, 13, 14]), 6, true),
             (g(1, 3, &vec![0, 1, 2, 5, 15, 16]), 6, false),
             (g(1, 3, &vec![0, 1, 7, 17, 18, 19]), 6, true),
@@ -663,6 +668,8 @@ pub fn grids(tier: Tier) -> Vec<(Grid, usize, bool)> {
             (g(2, 3, &vec![0, 1, 6, 8, 11]), 8, false),
             (g(1, 6, &long), 8, true),
             (g(1, 7, &long), 8, false),
+            (g(1, 6, &vec![0, 3, 20, 23, 24]), 8, false),
+            (g(1, 7, &vec![0, 20, 23, 24]), 8, false),
             (g(1, 4, &vec![0, 1, 7, 10, 12, 13, 14]), 8, true),
             (g(2, 2, &vec![0, 1, 10, 12, 13, 14]), 8, false),
             (g(1, 4, &vec![0, 1, 2, 5, 15, 16]), 8, true),
@@ -1061,7 +1068,7 @@ pub fn run(ctx: &Ctx) -> Result<Report, String> {
         .set("samples", samples.into_vec());
     r.assume("VT semantics of model/screen.rs (xterm/ECMA-48/kitty): ECH erases with the current background only; overwriting half of a wide character blanks the other half keeping its rendition");
     r.assume("display width as defined by unicode-width (the library's own definition)");
-    r.assume("grids up to the listed sizes and the 22 cell kinds; every transition is a real TerminalRenderer::frame call");
+    r.assume("grids up to the listed sizes and the 24 cell kinds; every transition is a real TerminalRenderer::frame call");
     r.violations = viol.into_vec();
     Ok(r)
 }
